@@ -92,6 +92,23 @@ def check_reader(rep, prog, fn):
                 break
     bufvars = set(ex.var_of(fg.args()[0]) for fg in fgets if fg.args())
     bufvars.discard(None)
+    # R10f: the property is stated for lines shorter than the reader's 1024-byte buffer; a smaller buffer makes fgets return such lines in
+    # pieces, each piece dispatched on its own first character (a long comment injects edges / problem lines)
+    for fg in fgets:
+        whatf = 'the line buffer holds every line shorter than 1024 bytes in one piece'
+        bv = ex.var_of(fg.args()[0]) if fg.args() else None
+        bt = prog.base_type(prog.vars[bv]['ty']) if bv is not None else None
+        size = (bt or {}).get('array_size')
+        lim = fg.args()[1].strip_all().cv if len(fg.args()) > 1 else None
+        if size is None or lim is None:
+            rep.undecided('R10f', fg, fn, whatf, 'buffer is not a fixed-size array or the fgets limit is not a constant')
+        elif lim > size:
+            rep.violation('R10f', fg, fn, whatf, 'fgets may write %d bytes into a buffer of %d' % (lim, size), key='R10f|%s|overflow' % fn.g)
+        elif min(size, lim) < 1024:
+            rep.violation('R10f', fg, fn, whatf, 'the buffer / fgets limit is %d bytes: a line of %d..1023 characters is read in pieces and every piece is '
+                          'interpreted as a line of its own' % (min(size, lim), min(size, lim)), key='R10f|%s|small-buffer' % fn.g)
+        else:
+            rep.ok('R10f', fg, fn, whatf, 'buffer %d bytes, fgets limit %d' % (size, lim))
 
     # ---------------------------------------------------------------- R10a
     for buf in bufvars:
@@ -1099,6 +1116,7 @@ def run_on(rep, prog):
 def run(rep, tier):
     rep.rule('R10a', 'a NUL written into the fgets buffer only replaces a line terminator', floor=1)
     rep.rule('R10b', 'optional weight defaults to 1 on every line', floor=1)
+    rep.rule('R10f', 'line buffer of at least 1024 bytes', floor=1)
     rep.rule('R10c', 'undeclared vertex raises an error before the vertex map is read', floor=2)
     rep.rule('R10d', 'one vertex per declared node named 1..n; one edge per edge line with its weight', floor=2)
     rep.rule('R10e', 'validators are exists-loops over the whole range with the right predicate', floor=6)
@@ -1117,7 +1135,7 @@ def run(rep, tier):
     pp = env.extract([pos], 'full')[pos]
     prep = type(rep)(rep.prop, rep.tier)
     run_on(prep, pp)
-    for r in ('R10a', 'R10b', 'R10c', 'R10d', 'R10e'):
+    for r in ('R10a', 'R10b', 'R10c', 'R10d', 'R10e', 'R10f'):
         rep.positive(r, 'witness/positive/c10_reader.cc',
                      any(i.status == 'violation' and i.rule == r for i in prep.instances.values()))
     rep.assume('lines are shorter than the 1024-byte buffer (property quantifier); sscanf/fgets/strcspn behave as in ISO C')
